@@ -442,8 +442,47 @@ pub fn soup(seed: u64) -> RunOutcome {
     o
 }
 
+/// (e) the short entry's first byte through all 256 values (0x05 stands for 0xE5, 0xE5 for "deleted", 0x00 for "end",
+/// 0x2E for dot entries), each with a run whose checksum was computed over the bytes as stored, over the bytes with
+/// 0xE5 first, and over the bytes with 0x05 first: only the first is a match
+pub fn first_byte(item: u64) -> RunOutcome {
+    let mut o = RunOutcome::empty();
+    o.evaluations = 0;
+    let bi = (item % 3) as usize;
+    let len = 1 + ((item / 3) % 2) as usize;
+    let name = units_of("first byte sweep long name")[..(len * 13 - 5)].to_vec();
+    for b0 in 0..=255u8 {
+        for mode in 0..3 {
+            let mut sfn = *b"XFIRSTB TXT";
+            sfn[0] = b0;
+            let mut alt = sfn;
+            match mode {
+                1 => alt[0] = 0xE5,
+                2 => alt[0] = 0x05,
+                _ => {}
+            }
+            let mut slots = valid_entry(&name, &sfn, 0x20);
+            let chk = refdec::sfn_checksum(&alt);
+            let n = slots.len();
+            for sl in slots[..n - 1].iter_mut() {
+                sl[13] = chk;
+            }
+            slots.push(mk_sfn(b"SENTINEL   ", 0x20, 7, [0; 12]));
+            o.evaluations += 1;
+            o.distinct.push(crate::rng::hash_bytes(u64::from(b0) * 3 + mode, &item.to_le_bytes()));
+            if let Err((class, detail)) = judge(bi, &slots) {
+                let v = viol("C17", &class, format!("{} short entry first byte {:#04x}, run checksum computed with first byte {:#04x}: {}", base(bi).name, b0, alt[0], detail), 0);
+                o.violation = Some((v.clone(), Replay { property: "C17".into(), kind: "c17-first-byte".into(), seed: item, cfg: crate::c06::dummy_cfg(), steps: vec![], violation: Some(v) }));
+                return o;
+            }
+        }
+    }
+    o
+}
+
 pub fn replay(kind: &str, seed: u64) -> Option<RunOutcome> {
     match kind {
+        "c17-first-byte" => Some(first_byte(seed)),
         "c17-patterns" => Some(patterns(seed)),
         "c17-bytes" => Some(byte_sweep(seed)),
         "c17-soup" => Some(soup(seed)),
@@ -456,6 +495,7 @@ pub fn batches(tier: &str, seed: u64) -> Vec<Batch<'static>> {
     vec![
         Batch { name: "(a) order/flag/checksum patterns, runs of 1-3 slots x 5 followers x 3 directory kinds".into(), runs: 45, f: Box::new(patterns) },
         Batch { name: "(b) every byte of a 2-slot run + short entry through 256 values x 3 directory kinds".into(), runs: 288, f: Box::new(byte_sweep) },
+        Batch { name: "(e) first byte of the short entry through 256 values x 3 checksum bases (as stored / 0xE5 first / 0x05 first) x 3 directory kinds".into(), runs: 6, f: Box::new(first_byte) },
         Batch { name: "(c) seeded slot soup, (d) 19-22-slot runs of non-padding units".into(), runs: n_soup, f: Box::new(move |i| soup(crate::rng::run_seed(seed, 71, i))) },
     ]
 }
